@@ -22,8 +22,8 @@ import (
 type Outcome struct {
 	Err     bool    `json:"err,omitempty"`
 	ErrText string  `json:"errText,omitempty"`
-	Type    string  `json:"type,omitempty"` // node-set | number | string | boolean
-	Nodes   []int   `json:"nodes,omitempty"` // node IDs in the order returned
+	Type    string  `json:"type,omitempty"`    // node-set | number | string | boolean
+	Nodes   []int   `json:"nodes,omitempty"`   // node IDs in the order returned
 	Foreign int     `json:"foreign,omitempty"` // cursors that do not belong to the queried tree
 	Num     float64 `json:"-"`
 	NumS    string  `json:"num,omitempty"`
